@@ -1603,8 +1603,8 @@ def body_functions(raw, hdr):
     correspondence run alone, as for `hash`/`hmac`/`reset`), and the fallback is reported in the evidence."""
     out, status = [], {}
     # class layout the model's `Sha` mirrors
-    m = re.search(r"private:\s*uint32\s+state\s*\[\s*8\s*\]\s*;\s*uint64\s+count\s*;\s*byte\s+buffer\s*\[\s*64\s*\]\s*;", raw)
-    if not m:
+    m = re.search(r"private:\s*uint32\s+state\s*\[\s*8\s*\]\s*;\s*uint64\s+count\s*;\s*byte\s+buffer\s*\[\s*(64|blockSize)\s*\]\s*;", raw)
+    if not m or (m.group(1) == "blockSize" and hdr["blockSize"] != 64):
         raise Untranslatable("class Sha256: data members are not `uint32 state[8]; uint64 count; byte buffer[64];`")
     squeeze = lambda t: re.sub(r"\s+", " ", t).strip()
     # `Sha256 x;` is translated as `init` = `reset` on fresh storage: that is what the constructor must be
@@ -1794,11 +1794,20 @@ def generate(repo, defines=(), ns="Sha256", suffix="", want_body=False):
     m = re.search(r"void\s+Sha256::reset\s*\(\s*\)\s*\{(.*?)\n\}", code, re.S)
     if not m:
         raise Untranslatable("Sha256::reset() not found")
-    init = re.findall(r"p\s*->\s*state\s*\[\s*(\d+)\s*\]\s*=\s*(0[xX][0-9a-fA-F]+|\d+)\s*;", m.group(1))
-    if [int(i) for i, _ in init] != list(range(8)):
-        raise Untranslatable(f"reset(): expected assignments to state[0..7] in order, found indices {[i for i, _ in init]}")
-    H0 = [int(v, 0) for _, v in init]
-    mc = re.search(r"p\s*->\s*count\s*=\s*(\d+)\s*;", m.group(1))
+    rbody = m.group(1)
+    init = re.findall(r"(?:\w+\s*->\s*)?\bstate\s*\[\s*(\d+)\s*\]\s*=\s*(0[xX][0-9a-fA-F]+|\d+)\s*;", rbody)
+    if [int(i) for i, _ in init] == list(range(8)):
+        H0 = [int(v, 0) for _, v in init]
+    else:
+        # `for (i = 0; i < 8; i++) state[i] = TABLE[i];` with `const UInt32 …TABLE[8] = { eight literals };`
+        mt = re.search(r"for\s*\(\s*(?:\w+\s+)?(\w+)\s*=\s*0\s*;\s*\1\s*<\s*8\s*;\s*(?:\1\s*\+\+|\+\+\s*\1)\s*\)\s*\{?\s*(?:\w+\s*->\s*)?state\s*\[\s*\1\s*\]\s*=\s*"
+                       r"(?:\w+\s*::\s*)*(\w+)\s*\[\s*\1\s*\]\s*;", rbody)
+        tab = re.search(r"const\s+\w+\s+(?:\w+\s*::\s*)*" + re.escape(mt.group(2)) + r"\s*\[\s*8\s*\]\s*=\s*\{(.*?)\}\s*;", code, re.S) if mt else None
+        vals = re.findall(r"0[xX][0-9a-fA-F]+|\b\d+\b", tab.group(1)) if tab else []
+        if len(vals) != 8:
+            raise Untranslatable(f"reset(): neither assignments of literals to state[0..7] in order (found indices {[i for i, _ in init]}) nor a copy loop from a constant table of eight words")
+        H0 = [int(v, 0) for v in vals]
+    mc = re.search(r"(?:\w+\s*->\s*)?\bcount\s*=\s*(\d+)\s*;", rbody)
     if not mc:
         raise Untranslatable("reset(): assignment to count not found")
     count0 = int(mc.group(1))
@@ -1811,10 +1820,21 @@ def generate(repo, defines=(), ns="Sha256", suffix="", want_body=False):
                     ("hmacIpad", r"iKeyPad\s*\[\s*i\s*\]\s*=\s*hashKey\s*\[\s*i\s*\]\s*\^\s*(0[xX][0-9a-fA-F]+|\d+)\s*;")):
         mm = re.findall(rx, code)
         if len(mm) != 1 and key in ("hmacOpad", "hmacIpad"):
-            # renamed locals: the two statements `A[i] = K[i] ^ c;` of the pad loop, in their order (outer pad first)
-            pads = re.findall(r"\b(\w+)\s*\[\s*(\w+)\s*\]\s*=\s*(\w+)\s*\[\s*\2\s*\]\s*\^\s*(0[xX][0-9a-fA-F]+|\d+)\s*;", code)
+            # renamed locals / named constants: the two statements `A[i] = K[i] ^ c;` of the pad loop (c a literal or a
+            # `const byte c = literal;`); the pad whose array is handed to `update` first is the inner one
+            pads = re.findall(r"\b(\w+)\s*\[\s*(\w+)\s*\]\s*=\s*(\w+)\s*\[\s*\2\s*\]\s*\^\s*(0[xX][0-9a-fA-F]+|\d+|[A-Za-z_]\w*)\s*;", code)
             if len(pads) == 2 and pads[0][2] == pads[1][2] and pads[0][0] != pads[1][0]:
-                mm = [pads[0 if key == "hmacOpad" else 1][3]]
+                def val(t):
+                    if re.match(r"\d", t):
+                        return t
+                    d = re.findall(r"\bconst\s+\w+\s+" + re.escape(t) + r"\s*=\s*(0[xX][0-9a-fA-F]+|\d+)\s*;", code)
+                    return d[0] if len(d) == 1 else None
+                first = {a: mu.start() for a in (pads[0][0], pads[1][0])
+                         for mu in [re.search(r"\.\s*update\s*\(\s*" + re.escape(a) + r"\s*,", code)] if mu}
+                if len(first) == 2:
+                    inner = min(first, key=first.get)
+                    v = val([pd for pd in pads if (pd[0] == inner) == (key == "hmacIpad")][0][3])
+                    mm = [v] if v is not None else []
         if len(mm) != 1:
             raise Untranslatable(f"Sha256.hpp: constant {key} not found (or found {len(mm)} times)")
         hdr[key] = int(mm[0], 0)
@@ -1965,7 +1985,7 @@ def gen(ctx):
         ctx.cov["translated_bodies"] = {"Transform": "translated (it is the model)", "Transform -D_SHA256_UNROLL2": "translated",
                                         "Transform -D_SHA256_UNROLL": "translated", "configuration selected by the sources": LAST_STATUS.get("config"),
                                         **{n: (("translated, proved = RFC 2104 (and = the model) for every initial content of its local arrays" if n == "hmac" else "translated, proved equal to the model")
-                                               if r is None else f"NOT translated this run, model function used instead: {r}")
+                                               if r is None else f"fallback: NOT translated this run, the hand-written model function is used instead and the differential run carries the tie ({r})")
                                            for n, r in LAST_STATUS.items() if n != "config"}}
     return ok, msg
 
